@@ -88,6 +88,15 @@ Model/LoaderCheck.vos Model/LoaderCheck.vok Model/LoaderCheck.required_vos: Mode
 Model/MachineCheck.vo Model/MachineCheck.glob Model/MachineCheck.v.beautified Model/MachineCheck.required_vo: Model/MachineCheck.v Model/Term.vo Model/Unify.vo Model/Clause.vo Model/Machine.vo Model/Boot.vo Model/Sld.vo Gen/Bootstrap_gen.vo
 Model/MachineCheck.vio: Model/MachineCheck.v Model/Term.vio Model/Unify.vio Model/Clause.vio Model/Machine.vio Model/Boot.vio Model/Sld.vio Gen/Bootstrap_gen.vio
 Model/MachineCheck.vos Model/MachineCheck.vok Model/MachineCheck.required_vos: Model/MachineCheck.v Model/Term.vos Model/Unify.vos Model/Clause.vos Model/Machine.vos Model/Boot.vos Model/Sld.vos Gen/Bootstrap_gen.vos
+Model/Dcg.vo Model/Dcg.glob Model/Dcg.v.beautified Model/Dcg.required_vo: Model/Dcg.v Model/Term.vo
+Model/Dcg.vio: Model/Dcg.v Model/Term.vio
+Model/Dcg.vos Model/Dcg.vok Model/Dcg.required_vos: Model/Dcg.v Model/Term.vos
+Model/DcgCore.vo Model/DcgCore.glob Model/DcgCore.v.beautified Model/DcgCore.required_vo: Model/DcgCore.v 
+Model/DcgCore.vio: Model/DcgCore.v 
+Model/DcgCore.vos Model/DcgCore.vok Model/DcgCore.required_vos: Model/DcgCore.v 
+Model/DcgCheck.vo Model/DcgCheck.glob Model/DcgCheck.v.beautified Model/DcgCheck.required_vo: Model/DcgCheck.v Model/Term.vo Model/Unify.vo Model/Machine.vo Model/Sld.vo Model/Boot.vo Model/Dcg.vo Model/MachineCheck.vo
+Model/DcgCheck.vio: Model/DcgCheck.v Model/Term.vio Model/Unify.vio Model/Machine.vio Model/Sld.vio Model/Boot.vio Model/Dcg.vio Model/MachineCheck.vio
+Model/DcgCheck.vos Model/DcgCheck.vok Model/DcgCheck.required_vos: Model/DcgCheck.v Model/Term.vos Model/Unify.vos Model/Machine.vos Model/Sld.vos Model/Boot.vos Model/Dcg.vos Model/MachineCheck.vos
 Proofs/ArithInt.vo Proofs/ArithInt.glob Proofs/ArithInt.v.beautified Proofs/ArithInt.required_vo: Proofs/ArithInt.v Model/GoInt.vo Model/F64.vo Model/Num.vo Gen/Arith_gen.vo
 Proofs/ArithInt.vio: Proofs/ArithInt.v Model/GoInt.vio Model/F64.vio Model/Num.vio Gen/Arith_gen.vio
 Proofs/ArithInt.vos Proofs/ArithInt.vok Proofs/ArithInt.required_vos: Proofs/ArithInt.v Model/GoInt.vos Model/F64.vos Model/Num.vos Gen/Arith_gen.vos
@@ -181,3 +190,9 @@ Proofs/Stream.vos Proofs/Stream.vok Proofs/Stream.required_vos: Proofs/Stream.v 
 Props/C19.vo Props/C19.glob Props/C19.v.beautified Props/C19.required_vo: Props/C19.v Model/Stream.vo Proofs/Stream.vo
 Props/C19.vio: Props/C19.v Model/Stream.vio Proofs/Stream.vio
 Props/C19.vos Props/C19.vok Props/C19.required_vos: Props/C19.v Model/Stream.vos Proofs/Stream.vos
+Proofs/Dcg.vo Proofs/Dcg.glob Proofs/Dcg.v.beautified Proofs/Dcg.required_vo: Proofs/Dcg.v Model/DcgCore.vo Model/Term.vo Model/Dcg.vo
+Proofs/Dcg.vio: Proofs/Dcg.v Model/DcgCore.vio Model/Term.vio Model/Dcg.vio
+Proofs/Dcg.vos Proofs/Dcg.vok Proofs/Dcg.required_vos: Proofs/Dcg.v Model/DcgCore.vos Model/Term.vos Model/Dcg.vos
+Props/C17.vo Props/C17.glob Props/C17.v.beautified Props/C17.required_vo: Props/C17.v Model/DcgCore.vo Model/Term.vo Model/Dcg.vo Proofs/Dcg.vo
+Props/C17.vio: Props/C17.v Model/DcgCore.vio Model/Term.vio Model/Dcg.vio Proofs/Dcg.vio
+Props/C17.vos Props/C17.vok Props/C17.required_vos: Props/C17.v Model/DcgCore.vos Model/Term.vos Model/Dcg.vos Proofs/Dcg.vos
